@@ -198,8 +198,10 @@ def window_unaltered(ctx: Ctx, py: PyProgram, rule: str = "C01.4/window", hooks:
         if not calls:
             # the hook may reach decode() through a helper of its class: the same obligations hold on both hops
             cls_ = py.need_cls(py.module(isa.ARCH_PY), q.split(".")[0])
-            for hc in [c for c in ast.walk(fn) if isinstance(c, ast.Call) and isinstance(c.func, ast.Attribute) and isinstance(c.func.value, ast.Name) and c.func.value.id == "self" and c.func.attr in cls_.methods]:
-                helper = cls_.methods[hc.func.attr]
+            modfns = {f_.name: f_ for f_ in py.module(isa.ARCH_PY).tree.body if isinstance(f_, ast.FunctionDef)}
+            cands = [(c, cls_.methods[c.func.attr]) for c in ast.walk(fn) if isinstance(c, ast.Call) and isinstance(c.func, ast.Attribute) and isinstance(c.func.value, ast.Name) and c.func.value.id == "self" and c.func.attr in cls_.methods]
+            cands += [(c, modfns[c.func.id]) for c in ast.walk(fn) if isinstance(c, ast.Call) and isinstance(c.func, ast.Name) and c.func.id in modfns]
+            for hc, helper in cands:
                 if any(isinstance(x, ast.Call) and unparse(x.func) == "decode" for x in ast.walk(helper)):
                     calls.append(hc)
                     hparams = {a_.arg for a_ in helper.args.args if a_.arg != "self"}
@@ -234,7 +236,7 @@ def window_unaltered(ctx: Ctx, py: PyProgram, rule: str = "C01.4/window", hooks:
                 ctx.violation(rule, key_of(isa.OPCODES_PY, "decode", "buffer altered before decoding"),
                               f"decode() wraps `{unparse(c.args[0])[:80]}` instead of the buffer it was given: bytes that were not supplied take part in decoding, so a truncated instruction is accepted with a "
                               "length larger than the buffer", f"{isa.OPCODES_PY}:{c.lineno}")
-    ctx.instance(rule, "decode() arguments of the hooks are their own unrebound parameters; decode() wraps the supplied buffer unaltered", n, 3)
+    ctx.instance(rule, "decode() arguments of the hooks are their own unrebound parameters; decode() wraps the supplied buffer unaltered", n, 1)
 
 
 def consumers(ctx: Ctx, py: PyProgram) -> None:
@@ -242,13 +244,26 @@ def consumers(ctx: Ctx, py: PyProgram) -> None:
     hooks = ["SC62015.get_instruction_info", "SC62015.get_instruction_text", "SC62015.get_instruction_low_level_il"]
     sets = {}
     n = 0
+    amod = py.module(isa.ARCH_PY)
+    modfns = {f_.name: f_ for f_ in amod.tree.body if isinstance(f_, ast.FunctionDef)}
     for q in hooks:
         fn = py.func(isa.ARCH_PY, q)
         calls = [c for c in ast.walk(fn) if isinstance(c, ast.Call) and unparse(c.func) == "decode"]
         n += 1
         def _args_ok(c: ast.Call) -> bool:
             pos = [unparse(a) for a in c.args] + [unparse(k.value) for k in c.keywords]
-            return pos == ["data", "addr", "OPCODES"]
+            return pos == ["data", "addr", "OPCODES"] or pos == ["data", "addr"]
+        if not calls:
+            # a wrapper (method or module function) that itself calls decode(<its params>, OPCODES) stands for the call
+            cls_ = py.need_cls(amod, q.split(".")[0])
+            for c in ast.walk(fn):
+                h = None
+                if isinstance(c, ast.Call) and isinstance(c.func, ast.Attribute) and isinstance(c.func.value, ast.Name) and c.func.value.id == "self":
+                    h = cls_.methods.get(c.func.attr)
+                elif isinstance(c, ast.Call) and isinstance(c.func, ast.Name):
+                    h = modfns.get(c.func.id)
+                if h is not None and any(isinstance(x, ast.Call) and unparse(x.func) == "decode" and [unparse(k_) for k_ in x.args[2:]] + [unparse(k_.value) for k_ in x.keywords] == ["OPCODES"] for x in ast.walk(h)):
+                    calls.append(c)
         if len(calls) != 1 or not _args_ok(calls[0]):
             ctx.violation("C01.4/same-decoder", key_of(isa.ARCH_PY, q, "decode call"), f"{q} does not call decode(data, addr, OPCODES)", f"{isa.ARCH_PY}:{fn.lineno}")
         tries = [t for t in ast.walk(fn) if isinstance(t, ast.Try) and any(c in list(ast.walk(t)) for c in calls)]
